@@ -503,7 +503,7 @@ def table_case(draw, tier="quick"):
     elif form in ("rows_list", "rows_mask"):
         # rows given as an index list / tuple / vector or as a boolean mask, columns by position, slice or name(s); a scalar value
         rows = draw(st.lists(st.integers(-n, n - 1), min_size=1, max_size=3))
-        colsel = draw(st.sampled_from(["int", "all", "slice", "name", "names"]))
+        colsel = draw(st.sampled_from(["int", "all", "slice", "name", "names", "mixed"]))
         vals = {"x": draw(vk(c)) if colsel in ("int", "name") else draw(st.integers(-3, 3)) if all(kd in ("int", "float") for kd in kinds) else None,
                 "rows": rows, "rows_form": draw(st.sampled_from(["list", "tuple", "vector"])), "colsel": colsel,
                 "mask": draw(st.lists(st.booleans(), min_size=n, max_size=n))}
@@ -609,14 +609,26 @@ def run_table(case, ctx):
             rows_ = [i for i in range(n) if vals["mask"][i]]
             rk_ = list(vals["mask"]) if vals["rows_form"] != "vector" else S.Vector(list(vals["mask"]))
         cs_ = vals["colsel"]
-        cols_ = {"int": [c], "name": [c], "all": list(range(k)), "slice": list(range(*cs.indices(k))), "names": list(range(*cs.indices(k)))}[cs_]
-        ck_ = {"int": c, "name": colname(c), "all": slice(None), "slice": cs, "names": [colname(j) for j in cols_]}[cs_]
+        cols_ = {"int": [c], "name": [c], "all": list(range(k)), "slice": list(range(*cs.indices(k))), "names": list(range(*cs.indices(k))),
+                 "mixed": [c, (c + 1) % k] if k >= 2 else [c]}[cs_]
+        if cs_ == "mixed":
+            ck_ = [cols_[0], colname(cols_[1])] if len(cols_) == 2 else [cols_[0]]        # a position before a name
+        else:
+            ck_ = {"int": c, "name": colname(c), "all": slice(None), "slice": cs, "names": [colname(j) for j in cols_]}[cs_]
         if cs_ == "names" and not cols_:
             return
         key = (rk_, ck_)
         value = vals["x"]
         addressed = {(i, j) for i in rows_ for j in cols_}
         want = {p: value for p in addressed}
+        if cs_ == "mixed" and len(cols_) == 2 and rows_:
+            # one row, two columns named in this order (a position, then a name), one value for each: the order pairs them up
+            kd_ = [ref_dtype(cols[j][1])[0] for j in cols_]
+            pick_ = {int: (7, 8), float: (7.5, 8.5), str: ("p", "q"), bool: (True, False), object: (7, 8)}
+            value = [pick_.get(kd_[0], (7, 8))[0], pick_.get(kd_[1], (7, 8))[1]]
+            key = (rows_[0], ck_)
+            addressed = {(rows_[0], cols_[0]), (rows_[0], cols_[1])}
+            want = {(rows_[0], cols_[0]): value[0], (rows_[0], cols_[1]): value[1]}
     elif form == "mask_scalar":
         m = vals["mask"]
         key = S.Vector(list(m))
